@@ -311,6 +311,22 @@ Proof.
     field. apply (on_nz F ON).
 Qed.
 
+(* vector / scalar over a field: a zero divisor panics (on a non-empty vector: the first element divides first),
+   otherwise entry i is v[i] * s^-1; the empty vector divides by anything *)
+Lemma vdiv_spec_lemma (v : list T) (s : T) :
+  (s <> zero -> vdiv v s = Ok (map (fun x => x * inv s) v)) /\
+  (s = zero -> v <> [] -> vdiv v s = Panic DivZero) /\
+  (v = [] -> vdiv v s = Ok []).
+Proof.
+  unfold vdiv. split; [|split].
+  - intros Hs. induction v as [|x t IH]; cbn [mapM map]; auto.
+    rewrite (fl_div F FL), (eqb_false_of_neq s zero Hs). cbn [bind]. rewrite IH. reflexivity.
+  - intros -> Hne. destruct v as [|x t]; [congruence|]. cbn [mapM].
+    rewrite (fl_div F FL). assert (E : eqb (@zero F) zero = true) by (now apply (fl_eqb F FL)).
+    rewrite E. reflexivity.
+  - intros ->. reflexivity.
+Qed.
+
 End Linspace.
 
 (* ------------------------------------------------------------------ edit histories refine lists *)
